@@ -1,6 +1,7 @@
 // C15: bounded stack and heap against a hostile, stalling peer.  DESIGN 5.5
 #include "engine.h"
 #include "bulk.h"
+#include "nest.h"
 #include "walker.h"
 #include "transport.h"
 #include "ber.h"
@@ -17,120 +18,6 @@ static const long HEAP_A = 1024;         // bytes of heap per byte of input deli
 static const long HEAP_B = 320 * 1024;   // constant part: structures of fixed size, scratch, and ONE PER fragment of the widest character type
                                          // (X.691 fragments carry up to 64K units, asn1c reserves a fragment before reading it: 64K x 4 octets for UniversalString)
 
-// ---------------------------------------------------------------- nest templates
-static void put_len(Bytes &o, size_t len) {
-    if(len < 0x80) { o.push_back((uint8_t)len); return; }
-    uint8_t tmp[8]; int k = 0; size_t v = len;
-    do { tmp[k++] = v & 0xff; v >>= 8; } while(v);
-    o.push_back((uint8_t)(0x80 | k));
-    while(k--) o.push_back(tmp[k]);
-}
-static Bytes tlv(uint8_t tag, const Bytes &content) { Bytes o; o.push_back(tag); put_len(o, content.size()); o.insert(o.end(), content.begin(), content.end()); return o; }
-static Bytes B(std::initializer_list<int> l) { Bytes b; for(int x : l) b.push_back((uint8_t)x); return b; }
-static void app(Bytes &a, const Bytes &b) { a.insert(a.end(), b.begin(), b.end()); }
-static void apps(Bytes &a, const char *s) { a.insert(a.end(), s, s + strlen(s)); }
-static Bytes rep(const Bytes &u, size_t k) { Bytes o; o.reserve(u.size() * k); for(size_t i = 0; i < k; i++) app(o, u); return o; }
-static Bytes reps(const char *s, size_t k) { Bytes o; size_t n = strlen(s); o.reserve(n * k); for(size_t i = 0; i < k; i++) o.insert(o.end(), s, s + n); return o; }
-// definite-length nest built inside-out in O(total): content(k) = pre + TAG L content(k-1) + post
-static Bytes nest_def(uint8_t top_tag, uint8_t inner_tag, const Bytes &pre, const Bytes &post, const Bytes &base, size_t k) {
-    // sizes first (inside-out), then emit outside-in
-    std::vector<size_t> clen(k + 1);
-    clen[0] = base.size();
-    auto hdr = [](size_t len) { size_t h = 2; if(len >= 0x80) { size_t v = len; while(v) { h++; v >>= 8; } } return h; };
-    for(size_t i = 1; i <= k; i++) clen[i] = pre.size() + hdr(clen[i - 1]) + clen[i - 1] + post.size();
-    Bytes o; o.reserve(clen[k] + 8);
-    o.push_back(top_tag); put_len(o, clen[k]);
-    for(size_t i = k; i >= 1; i--) { app(o, pre); o.push_back(inner_tag); put_len(o, clen[i - 1]); }
-    app(o, base);
-    for(size_t i = 1; i <= k; i++) app(o, post);
-    return o;
-}
-// definite-length nest whose levels cycle through a pattern of wrappers (pre-bytes + tag): k pattern repetitions around base
-static Bytes nest_cyc(uint8_t top_tag, const std::vector<std::pair<Bytes, uint8_t>> &pat, const Bytes &base, size_t k) {
-    size_t levels = pat.size() * k;
-    std::vector<size_t> clen(levels + 1);
-    clen[0] = base.size();
-    auto hdr = [](size_t len) { size_t h = 2; if(len >= 0x80) { size_t v = len; while(v) { h++; v >>= 8; } } return h; };
-    // level i (1 = innermost wrapper) uses pattern entry (levels - i) % pat.size() when emitted outside-in
-    for(size_t i = 1; i <= levels; i++) { const auto &w = pat[(levels - i) % pat.size()]; clen[i] = w.first.size() + hdr(clen[i - 1]) + clen[i - 1]; }
-    Bytes o; o.reserve(clen[levels] + 8);
-    o.push_back(top_tag); put_len(o, clen[levels]);
-    for(size_t i = levels; i >= 1; i--) { const auto &w = pat[(levels - i) % pat.size()]; app(o, w.first); o.push_back(w.second); put_len(o, clen[i - 1]); }
-    app(o, base);
-    return o;
-}
-static Bytes bits_nest(size_t k) { // k one-bits then a zero bit, padded
-    Bytes o((k + 1 + 7) / 8, 0);
-    for(size_t i = 0; i < k; i++) o[i / 8] |= (uint8_t)(0x80 >> (i % 8));
-    return o;
-}
-
-struct Tmpl { const char *name; const char *type; Syntax sy; Bytes (*gen)(size_t k); };
-
-static const Bytes V_DEEP = B({0xac, 0x07, 0xe3, 0x05, 0x61, 0x03, 0x02, 0x01, 0x00});
-
-static const Tmpl TEMPLATES[] = {
-    // Sim1
-    {"forest.ber-def", "Forest", SY_BER, [](size_t k) { return nest_def(0x31, 0x31, {}, {}, {}, k); }},
-    {"forest.ber-indef", "Forest", SY_BER, [](size_t k) { Bytes o = rep(B({0x31, 0x80}), k); app(o, B({0x31, 0x00})); app(o, rep(B({0, 0}), k)); return o; }},
-    {"forest.xer", "Forest", SY_XER, [](size_t k) { Bytes o = reps("<Forest>", k + 1); app(o, reps("</Forest>", k + 1)); return o; }},
-    {"forest.oer", "Forest", SY_OER, [](size_t k) { Bytes o = rep(B({1, 1}), k); app(o, B({1, 0})); return o; }},
-    {"forest.uper", "Forest", SY_UPER, [](size_t k) { Bytes o = rep(B({1}), k); o.push_back(0); return o; }},
-    {"tree2.ber-def", "Tree2", SY_BER, [](size_t k) { return nest_def(0x30, 0xa1, B({0x80, 1, 0}), B({0xa2, 0}), B({0x80, 1, 0, 0xa2, 0}), k); }},
-    {"tree2.xer", "Tree2", SY_XER, [](size_t k) { Bytes o; apps(o, "<Tree2><v>0</v>"); app(o, reps("<next><v>0</v>", k)); apps(o, "<kids></kids>"); app(o, reps("</next><kids></kids>", k)); apps(o, "</Tree2>"); return o; }},
-    {"tree.ber-def", "Tree", SY_BER, [](size_t k) {
-        // Tree ::= CHOICE { leaf [0], node [1] SEQUENCE { l [0] Tree, r [1] Tree }, wrap [2] }: nest through node.l
-        // level: A1 L { A0 L' <inner> A1 03 80 01 05 }
-        std::vector<size_t> len(k + 1); len[0] = 3;
-        auto hdr = [](size_t l) { size_t h = 2; if(l >= 0x80) { size_t v = l; while(v) { h++; v >>= 8; } } return h; };
-        for(size_t i = 1; i <= k; i++) { size_t inner = len[i - 1]; size_t a0 = hdr(inner) + inner; len[i] = hdr(a0 + 5) + a0 + 5; }
-        Bytes o; o.reserve(len[k]);
-        for(size_t i = k; i >= 1; i--) { size_t inner = len[i - 1]; size_t a0 = hdr(inner) + inner; o.push_back(0xa1); put_len(o, a0 + 5); o.push_back(0xa0); put_len(o, inner); }
-        app(o, B({0x80, 1, 5}));
-        for(size_t i = 1; i <= k; i++) app(o, B({0xa1, 3, 0x80, 1, 5}));
-        return o; }},
-    {"tree.xer", "Tree", SY_XER, [](size_t k) { Bytes o; apps(o, "<Tree>"); app(o, reps("<node><l>", k)); apps(o, "<leaf>5</leaf>"); app(o, reps("</l><r><leaf>5</leaf></r></node>", k)); apps(o, "</Tree>"); return o; }},
-    // unknown extension additions (skipped, not decoded): nesting inside what the decoder steps over
-    {"seq.ber-skip-indef", "Seq", SY_BER, [](size_t k) { Bytes o = B({0x30, 0x80, 0x80, 1, 0, 0xa5, 0}); app(o, rep(B({0xaf, 0x80}), k)); app(o, rep(B({0, 0}), k)); app(o, B({0, 0})); return o; }},
-    {"seq.ber-skip-mixed", "Seq", SY_BER, [](size_t k) { Bytes o = B({0x30, 0x80, 0x80, 1, 0, 0xa5, 0}); app(o, rep(B({0xaf, 0x80, 0x8e, 1, 7, 0xbf, 0x21, 0x80}), k)); app(o, rep(B({0, 0, 0, 0}), k)); app(o, B({0, 0})); return o; }},
-    {"seq.xer-skip", "Seq", SY_XER, [](size_t k) { Bytes o; apps(o, "<Seq><a>0</a><f></f>"); app(o, reps("<zz>", k)); app(o, reps("</zz>", k)); apps(o, "</Seq>"); return o; }},
-    {"set.ber-skip-indef", "Set", SY_BER, [](size_t k) { Bytes o = B({0x31, 0x80, 0x80, 1, 0, 0x83, 0}); app(o, rep(B({0xaf, 0x80}), k)); app(o, rep(B({0, 0}), k)); app(o, B({0, 0})); return o; }},
-    {"set.xer-skip", "Set", SY_XER, [](size_t k) { Bytes o; apps(o, "<Set><i>0</i><n/>"); app(o, reps("<zz>", k)); app(o, reps("</zz>", k)); apps(o, "</Set>"); return o; }},
-    {"ch.ber-skip-indef", "Ch", SY_BER, [](size_t k) { Bytes o = rep(B({0xaf, 0x80}), k); app(o, rep(B({0, 0}), k)); return o; }},
-    // Sim2
-    {"any.ber-indef", "Any", SY_BER, [](size_t k) { Bytes o = B({0x30, 0x80, 2, 1, 0}); app(o, rep(B({0x30, 0x80}), k)); app(o, rep(B({0, 0}), k)); app(o, B({0, 0})); return o; }},
-    {"deep.ber-indef", "Deep", SY_BER, [](size_t k) { Bytes o = rep(B({0xaa, 0x80, 0x30, 0x80, 0xab, 0x80}), k); app(o, B({0xaa, 0x80, 0x30, 0x80})); app(o, V_DEEP); app(o, B({0, 0, 0, 0}));
-        Bytes post = B({0, 0}); app(post, V_DEEP); app(post, B({0, 0, 0, 0})); app(o, rep(post, k)); return o; }},
-    {"ims.ber-nested-string", "ImS", SY_BER, [](size_t k) { Bytes o = B({0x30, 0x80, 0xa0, 0x80}); app(o, rep(B({0x24, 0x80}), k)); app(o, B({4, 1, 0x41})); app(o, rep(B({0, 0}), k)); app(o, B({0, 0}));
-        app(o, B({0x81, 2, 0, 0xff, 0x82, 1, 0x41, 0, 0})); return o; }},
-    // Sim6: recursion only through open types (information object sets)
-    {"nframe.xer", "NFrame", SY_XER, [](size_t k) { Bytes o = reps("<NFrame><ident>2</ident><value><NBox><kind>1</kind><content><NFrames>", k);
-        apps(o, "<NFrame><ident>1</ident><value><NLeaf><n>5</n></NLeaf></value></NFrame>"); app(o, reps("</NFrames></content></NBox></value></NFrame>", k)); return o; }},
-    {"nframe.ber-def", "NFrame", SY_BER, [](size_t k) {
-        // NFrame{ident 2, value [1]{NBox{kind 1, content [1]{NFrames{ NFrame ... }}}}}
-        std::vector<std::pair<Bytes, uint8_t>> pat = {{B({0x80, 1, 2}), 0xa1}, {Bytes(), 0x30}, {B({0x80, 1, 1}), 0xa1}, {Bytes(), 0x30}, {Bytes(), 0x30}};
-        return nest_cyc(0x30, pat, B({0x80, 1, 1, 0xa1, 5, 0x30, 3, 0x80, 1, 5}), k); }},
-    // Sim4
-    {"rec.ber-def", "Rec", SY_BER, [](size_t k) { return nest_def(0x30, 0xa0, {}, {}, {}, k); }},
-    {"rec.ber-indef", "Rec", SY_BER, [](size_t k) { Bytes o = B({0x30, 0x80}); app(o, rep(B({0xa0, 0x80}), k)); app(o, rep(B({0, 0}), k + 1)); return o; }},
-    {"rec.xer", "Rec", SY_XER, [](size_t k) { Bytes o; apps(o, "<Rec>"); app(o, reps("<r>", k)); app(o, reps("</r>", k)); apps(o, "</Rec>"); return o; }},
-    {"rec.oer", "Rec", SY_OER, [](size_t k) { Bytes o = rep(B({0x80}), k); o.push_back(0); return o; }},
-    {"rec.uper", "Rec", SY_UPER, [](size_t k) { return bits_nest(k); }},
-    {"recc.ber-def", "RecC", SY_BER, [](size_t k) {
-        std::vector<size_t> len(k + 1); len[0] = 2;
-        auto hdr = [](size_t l) { size_t h = 2; if(l >= 0x80) { size_t v = l; while(v) { h++; v >>= 8; } } return h; };
-        for(size_t i = 1; i <= k; i++) len[i] = hdr(len[i - 1]) + len[i - 1];
-        Bytes o; for(size_t i = k; i >= 1; i--) { o.push_back(0xa1); put_len(o, len[i - 1]); } app(o, B({0x80, 0})); return o; }},
-    {"recc.xer", "RecC", SY_XER, [](size_t k) { Bytes o; apps(o, "<RecC>"); app(o, reps("<more>", k)); apps(o, "<stop/>"); app(o, reps("</more>", k)); apps(o, "</RecC>"); return o; }},
-    {"recc.oer", "RecC", SY_OER, [](size_t k) { Bytes o = rep(B({0x81}), k); o.push_back(0x80); return o; }},
-    {"recc.uper", "RecC", SY_UPER, [](size_t k) { return bits_nest(k); }},
-    {"recl.ber-def", "RecL", SY_BER, [](size_t k) { return nest_def(0x30, 0x30, {}, {}, {}, k); }},
-    {"recl.ber-indef", "RecL", SY_BER, [](size_t k) { Bytes o = rep(B({0x30, 0x80}), k); app(o, B({0x30, 0})); app(o, rep(B({0, 0}), k)); return o; }},
-    {"recl.xer", "RecL", SY_XER, [](size_t k) { Bytes o = reps("<RecL>", k + 1); app(o, reps("</RecL>", k + 1)); return o; }},
-    {"recl.oer", "RecL", SY_OER, [](size_t k) { Bytes o = rep(B({1, 1}), k); app(o, B({1, 0})); return o; }},
-    {"recl.uper", "RecL", SY_UPER, [](size_t k) { Bytes o = rep(B({1}), k); o.push_back(0); return o; }},
-};
-static const int NTEMPL = sizeof(TEMPLATES) / sizeof(TEMPLATES[0]);
 
 static std::vector<const Tmpl *> g_valid;      // templates whose depth-3 instance the library decodes completely
 static std::vector<std::string> g_invalid;
